@@ -183,6 +183,68 @@ example : ((demo.s.obj demo.s.lastAccepted).out.map (·.st)) = some [100, 101, 1
 example : health ((demo.run [.reject 4, .reject 5]).s) = .health true (some 0) := by decide
 
 
+/-- **the registered set is the set of failed blocks** — the hand-over step proper (`finishTail`:
+set last processed, `verifyProcessingBlocks`, register the health check, ready) registers as
+unresolved exactly the ids of the processing blocks that are NOT verified afterwards, provided the
+processing objects are distinct and were only vacuously verified (no object verified before the
+sync is still processing — `pre.start` requires an empty processing set).  `finish` is `finishTail`
+after populating the last accepted object. -/
+theorem failed_set_is_unverified_processing (s : State) (hnd : s.processingSorted.Nodup)
+    (hu : ∀ h ∈ s.processingSorted, (s.obj h).verified = false) (hok : (finishTail s).2 = .ok) :
+    (finishTail s).1.unresolved =
+      some ((s.processingSorted.filter (fun h => !((finishTail s).1.obj h).verified)).map (fun h => (s.obj h).blk.id)) :=
+  finishTail_failed_set s hnd hu hok
+
+/-- **failed blocks stay failed until decided** — under `EngineOK` no later call or accepter step changes
+the `verified` flag of an object the engine holds as processing (it never re-verifies it), so the
+blocks of `F` remain unverified — hence their rejection is announced to the pre-rejected
+subscribers and resolves them (`reject_unverified_resolves`, `unhealthy_until_invalid_rejected`). -/
+theorem failed_blocks_stay_unverified (y : Sys) (op : Op)
+    (hn : (match op with | .start _ | .finish _ _ => false | _ => true) = true)
+    (hp : pre y.s y.e op = true) (j : Nat) (hj : j ∈ y.e.processing) (hlt : j < y.s.nobj) :
+    ((y.step op).s.obj j).verified = (y.s.obj j).verified := by
+  show ((step y.s op).1.obj j).verified = _
+  apply verified_flag_stable y.s op hn j hlt
+  intro c hc
+  subst hc
+  exact (pre_verify hp).2.1 hj
+
+/-! non-vacuity of `finish_state_equals_executed_chain_partial`: a concrete syncing state with a
+non-empty chain above the target (one block accepted while syncing) AND a non-empty `verifiedBlocks`
+(an invalid processing child of the tip) satisfies every hypothesis -/
+def exT : Blk := ⟨100, 99, 0, false, none⟩
+def exB : Blk := ⟨101, 100, 1, false, none⟩
+def exC : Blk := ⟨102, 101, 2, true, none⟩
+def exS : State :=
+  { objs := (Map.empty.set 0 (some { blk := exB })).set 1 (some { blk := exC }), nobj := 2,
+    vb := Map.empty.set 102 (some 1), vbKeys := [102],
+    idx := ⟨0, (Map.empty.set 0 (some exT)).set 1 (some exB), Map.empty, Map.empty⟩,
+    lastAccepted := 0, ready := false }
+
+example :
+    (finish exS exT [100]).1.ready = true ∧
+    (finish exS exT [100]).1.obj (finish exS exT [100]).1.lastAccepted =
+      ⟨exB, true, some ⟨exB, [100, 101]⟩, true, some ⟨exB, [100, 101]⟩⟩ ∧
+    (finish exS exT [100]).1.unresolved = some [102] := by
+  have h := finish_state_equals_executed_chain_partial exS exT [100] [exB] rfl rfl (by decide)
+    (by intro b hb; simp at hb; subst hb; rfl) (by intro b hb; simp at hb; subst hb; rfl)
+    (by intro _; decide)
+    (by
+      intro id h hh
+      simp only [exS, Map.set_apply, Map.empty] at hh
+      split at hh
+      · simp only [Option.some.injEq] at hh; subst hh; exact ⟨by decide, by decide⟩
+      · simp at hh)
+    (by decide)
+  exact ⟨h.1, h.2.2, by decide⟩
+
+/-- **the verdict** — `VM.HealthCheck` returns an error exactly while the VM is not ready or the
+unresolved set is non-empty (`errors.Join` of `errVMNotReady` / `errUnresolvedBlocks`) -/
+theorem health_error_iff (s : State) :
+    (healthErr s).1 = true ↔ (s.ready = false ∨ ∃ u, s.unresolved = some u ∧ u.length > 0) := by
+  unfold healthErr
+  cases hr : s.ready <;> cases hu : s.unresolved <;> simp
+
 /-! ### Known finding: finish between the rejects of one transitive rejection
 
 `Reject` does not take `chainLock`, so `FinishStateSync` (called from the state-sync client's
